@@ -5,7 +5,7 @@
 
     Wire (all integers):
       blobs : list of (parsed? status serial this next rcna? sig)      blob id = index
-      certs : list of (name serial expiry short url)                   cert id = index
+      certs : list of (name serial expiry lifetime url chain)                   cert id = index
       kind 0 (one stapleOCSP call):
          disabled cert staple? ocsp? stored? env now | staple? ocsp? stored? seen err ops
       kind 1 (history from an empty cache and empty store):
@@ -31,9 +31,9 @@ Definition get_blobs : dec (list blob) :=
   l <- get_list (get_opt get_resp) ;; ret (map (fun p => Blob (fst p) (snd p)) (number 0 l)).
 
 Definition get_certs : dec (list cert) :=
-  l <- get_list (n <- get_z ;; ser <- get_z ;; ex <- get_z ;; sh <- get_bool ;; u <- get_bool ;;
-                 ret (n, ser, ex, sh, u)) ;;
-  ret (map (fun p => match snd p with (n, ser, ex, sh, u) => Cert (fst p) n ser ex sh u end)
+  l <- get_list (n <- get_z ;; ser <- get_z ;; ex <- get_z ;; sh <- get_z ;; u <- get_bool ;;
+                 ch <- get_bool ;; ret (n, ser, ex, sh, u, ch)) ;;
+  ret (map (fun p => match snd p with (n, ser, ex, sh, u, ch) => Cert (fst p) n ser ex sh u ch end)
            (number 0 l)).
 
 Definition get_ref {A} (tbl : list A) : dec A :=
@@ -66,7 +66,7 @@ Definition get_call_case (bl : list blob) (cl : list cert) : dec call_case :=
   e <- get_env bl ;; now <- get_z ;;
   cs' <- get_cstate bl ;; st' <- get_opt (get_ref bl) ;; seen <- get_bool ;; err <- get_bool ;;
   ops <- get_list get_sop ;;
-  ret (CallCase d c cs st e now (Res cs' st' seen seen err ops)).
+  ret (CallCase d c cs st e now (Res cs' st' seen seen err ops false)).
 
 (** association list with default *)
 Fixpoint alookup {A} (d : A) (l : list (Z * A)) (k : Z) : A :=
@@ -203,7 +203,7 @@ Fixpoint check_hist (certs : list cert) (pre : sys) (l : list hstep) (agree spec
       let a := cache_eqb (cache mpost) (cache (hs_post h)) &&
                store_eqb certs (stor mpost) (stor (hs_post h)) &&
                calls_eqb mcalls (hs_calls h) && served_eqb (cache mpost) (hs_served h) in
-      let s := spec_step certs pre (hs_op h) (hs_post h) (hs_calls h) &&
+      let s := spec_step pre (hs_op h) (hs_post h) (hs_calls h) &&
                served_consistent (hs_post h) (hs_served h) in
       check_hist certs (hs_post h) r (agree && a) (spec && s)
   end.
@@ -241,7 +241,7 @@ Fixpoint explain_hist (certs : list cert) (pre : sys) (l : list hstep) : list Z 
        zb (step_reuse pre (hs_op h) (hs_post h) (hs_calls h));
        zb (step_corrupt pre (hs_op h) (hs_post h) (hs_calls h));
        zb (step_revoked pre (hs_op h) (hs_post h) (hs_calls h));
-       zb (step_persist certs pre (hs_op h) (hs_post h));
+       zb (step_persist pre (hs_op h) (hs_post h));
        Z.of_nat (length (cache mpost))] ++
       flat_map (fun en => [c_id (en_cert en); zb (en_managed en); oid (cs_staple (en_cs en));
                            ost (cs_ocsp (en_cs en))]) (cache mpost) ++
@@ -259,7 +259,7 @@ Definition explain_line (l : list Z) : list Z :=
        zb (res_err m); Z.of_nat (length (res_ops m))] ++ map sopz (res_ops m) ++
       [-7; zb (call_sound (cc_cert c) (cc_cs c) (cc_now c) (cc_obs c));
        zb (call_reuse (cc_dis c) (cc_cert c) (cc_st c) (cc_env c) (cc_now c) (cc_obs c));
-       zb (call_corrupt (cc_dis c) (cc_st c) (cc_env c) (cc_obs c));
+       zb (call_corrupt (cc_dis c) (cc_cert c) (cc_st c) (cc_env c) (cc_obs c));
        zb (call_persist (cc_cert c) (cc_st c) (cc_now c) (cc_obs c))]
   | Some (CHist certs steps) => explain_hist certs (Sys [] []) steps
   | None => []
